@@ -247,12 +247,33 @@ def check_repoint_order(ctx):
               "references are redirected before aliased regions are removed",
               "aliased regions are removed before (or without) redirecting the elements that reference them to the retained region: "
               "their content loses its region")
-  # and _replace_regions really re-points recursively
+  # and _replace_regions really re-points the whole subtree: interpreted on a sample tree in which elements at every depth
+  # (body, div, p, span, nested span, br) reference an aliased region, a retained region or none
+  from ..consteval import NotConst as _NC, Raised as _R
+  from ..rules.minieval import MiniEval, Node
   g = ctx.ix.func("ttconv.filters.doc.lcd:_replace_regions")
-  has_set = any(isinstance(c, ast.Call) and isinstance(c.func, ast.Attribute) and c.func.attr == "set_region" for c in own_nodes(g.node))
-  recurses = any(isinstance(c, ast.Call) and isinstance(c.func, ast.Name) and c.func.id == g.name for c in own_nodes(g.node))
-  ctx.check(has_set and recurses, "ORD-repoint", f"{g.qualname}|recursive set_region", ctx.where(g.module, g.node),
-            "re-points every element of the subtree", "_replace_regions no longer re-points the whole subtree")
+  ra, rb, rk = Node("Region", "alias_a"), Node("Region", "alias_b"), Node("Region", "kept")
+  mk = lambda kind, name, reg, ch=(): Node(kind, name, ch, region=reg)
+  tree = mk("Body", "body", None, [mk("Div", "div1", ra, [mk("P", "p1", None, [mk("Span", "s1", rb, [mk("Span", "s2", ra), mk("Br", "br1", None)]), mk("Span", "s3", rk)])]),
+                                   mk("Div", "div2", rk, [mk("P", "p2", rb)])])
+  aliases = {ra: rk, rb: rk}
+  me = MiniEval(ctx.ix)
+  try:
+    me.call(g, [tree, aliases])
+    got = sorted((n_.name, m_, a_[0].name if a_ and isinstance(a_[0], Node) else None) for (n_, m_, a_) in me.trace if isinstance(n_, Node) and m_ == "set_region")
+    want = sorted((n_.name, "set_region", "kept") for n_ in tree.walk() if n_.fields["region"] in aliases)
+    ctx.check(got == want, "ORD-repoint", f"{g.qualname}|recursive set_region", ctx.where(g.module, g.node),
+              f"interpreted on a sample tree: {len(want)} elements at every depth are re-pointed to the retained region, no other",
+              f"interpreted on a sample tree, _replace_regions re-points {got} but the elements that reference an aliased region are {want}: content below loses its region or is moved to a wrong one")
+  except _R:
+    ctx.bad("ORD-repoint", f"{g.qualname}|recursive set_region", ctx.where(g.module, g.node), "interpreted on a sample tree, _replace_regions raises")
+  except _NC as ex:
+    has_set = any(isinstance(c, ast.Call) and isinstance(c.func, ast.Attribute) and c.func.attr == "set_region" for c in own_nodes(g.node))
+    recurses = any(isinstance(c, ast.Call) and isinstance(c.func, ast.Name) and c.func.id == g.name for c in own_nodes(g.node))
+    if has_set and recurses:
+      ctx.ok("ORD-repoint", f"{g.qualname}|recursive set_region", ctx.where(g.module, g.node), "re-points and recurses (not interpretable: structural form)")
+    else:
+      raise AnalysisError(f"_replace_regions could not be interpreted on the sample tree ({ex}) and is not the plain recursive form")
 
 
 def run(ctx):
@@ -278,13 +299,9 @@ def run(ctx):
       st = c
       while st is not None and not isinstance(st, ast.stmt):
         st = getattr(st, "_parent", None)
-      guards = []
-      par = getattr(st, "_parent", None)
-      while par is not None and par is not f.node:
-        if isinstance(par, ast.If) and st_in(par.body, st):
-          guards.append(par.test)
-        par = getattr(par, "_parent", None)
-      ok = any("get_body()" in p for g in guards for p in nul.facts_from_test(g, True))
+      from ..rules import match as _match
+      # enclosing tests and early exits before the call (`if body is None: return`)
+      ok = any("get_body()" in p for (g, pol) in _match.reaching_conditions(c, f.node) for p in nul.facts_from_test(g, pol))
       ctx.check(ok, "NUL", f"{f.qualname}|{short(c, 70)}", ctx.where(f.module, c),
                 "the body passed as an argument is guarded by `get_body() is not None`",
                 f"`{short(c, 70)}` passes doc.get_body() without a None guard: a document without body fails with TypeError / AttributeError")
